@@ -37,7 +37,8 @@ func init() { core.Register(core.Check{ID: "C12m", Run: run, Replay: replay}) }
 // ConcatData is order-sensitive in its array input.
 type ConcatData struct {
 	Values []nodes.NodeOutput[string]
-	Tail   nodes.NodeOutput[string]
+	Tail   nodes.NodeOutput[string] // an ordinary input whose name sorts before the array input's
+	Zed    nodes.NodeOutput[string] // … and one whose name sorts after it
 }
 
 func (c ConcatData) Process() (string, error) {
@@ -45,7 +46,7 @@ func (c ConcatData) Process() (string, error) {
 	for _, v := range c.Values {
 		sb.WriteString(nodes.TryGetOutputValue(v, "-") + ",")
 	}
-	sb.WriteString("|" + nodes.TryGetOutputValue(c.Tail, "-"))
+	sb.WriteString("|" + nodes.TryGetOutputValue(c.Tail, "-") + "|" + nodes.TryGetOutputValue(c.Zed, "-"))
 	return sb.String(), nil
 }
 
@@ -345,7 +346,7 @@ func (w *world) applyEdit(o Op) bool {
 		w.inst.Parameter(id).SetDescription("about " + o.S)
 	case "arr":
 		p, c := w.nth("str", o.A), w.nth("concat", 0)
-		if p == "" || c == "" || w.arrN >= 14 {
+		if p == "" || c == "" || w.arrN >= 19 {
 			return false
 		}
 		w.inst.ConnectNodes(p, "Out", c, fmt.Sprintf("Values.%d", w.arrN))
@@ -398,12 +399,16 @@ func (w *world) applyEdit(o Op) bool {
 			w.setMeta("notes.n1", map[string]any{"text": "a \"quoted\" note", "width": 10.0})
 		case "deep":
 			w.setMeta("nodes."+w.ids[len(w.ids)-1]+".ui.collapsed", true)
+		case "arrays":
+			// arrays, empty ones included, at two depths
+			w.setMeta("nodes."+w.ids[0]+".tags", []any{})
+			w.setMeta("notes.n2", map[string]any{"replies": []any{}, "grid": []any{[]any{}, []any{1.0, 2.0}}, "labels": []any{"a", "b"}})
 		}
 	case "metadel":
 		if len(w.ids) == 0 {
 			return false
 		}
-		key := map[string]string{"position": "nodes." + w.ids[0] + ".position", "note": "notes.n1", "deep": "nodes." + w.ids[len(w.ids)-1] + ".ui.collapsed"}[o.S]
+		key := map[string]string{"position": "nodes." + w.ids[0] + ".position", "note": "notes.n1", "deep": "nodes." + w.ids[len(w.ids)-1] + ".ui.collapsed", "arrays": "notes.n2"}[o.S]
 		if !w.delMeta(key) {
 			return false // deleting a key that does not exist is not an edit
 		}
@@ -444,8 +449,8 @@ func alphabet() []Op {
 		{Kind: "wire", T: "str", A: 0, S: "pair.Left"}, {Kind: "wire", T: "num", A: 0, S: "pair.Right"},
 		{Kind: "wire", T: "bool", A: 0, S: "pair.Flag"}, {Kind: "wire", T: "file", A: 0, S: "pair.Blob"},
 		{Kind: "producer", A: 0, S: "out.txt"}, {Kind: "producer", A: 1, S: "second file.txt"}, {Kind: "producer", A: 1, S: "out.txt"},
-		{Kind: "meta", S: "position"}, {Kind: "meta", S: "note"}, {Kind: "meta", S: "deep"},
-		{Kind: "metadel", S: "position"}, {Kind: "metadel", S: "note"}, {Kind: "metadel", S: "deep"},
+		{Kind: "meta", S: "position"}, {Kind: "meta", S: "note"}, {Kind: "meta", S: "deep"}, {Kind: "meta", S: "arrays"},
+		{Kind: "metadel", S: "position"}, {Kind: "metadel", S: "note"}, {Kind: "metadel", S: "deep"}, {Kind: "metadel", S: "arrays"},
 		{Kind: "delete", T: "str"}, {Kind: "delete", T: "text"}, {Kind: "delete", T: "concat"},
 		{Kind: "name", T: "str", A: 0, S: "the \"name\""}, {Kind: "name", T: "file", A: 0, S: "upload"}, {Kind: "name", T: "num", A: 0, S: "amount"},
 	}
@@ -460,15 +465,23 @@ func alphabet() []Op {
 
 // ---- seeds (non-initial states) ----
 
-var seedNames = []string{"empty", "concat-0", "concat-1", "concat-2", "concat-9", "concat-10", "concat-11", "concat-12", "diamond", "two-files"}
+var seedNames = []string{"empty", "concat-0", "concat-1", "concat-2", "concat-9", "concat-10", "concat-11", "concat-12", "concat-2z", "concat-12z", "concat-13z", "concat-17z", "diamond", "two-files"}
 
 func buildSeed(name string) *world {
 	w := newWorld()
 	switch {
 	case name == "empty":
 	case strings.HasPrefix(name, "concat-"):
-		k, _ := strconv.Atoi(strings.TrimPrefix(name, "concat-"))
+		zed := strings.HasSuffix(name, "z") // also connect the two ordinary inputs (names sorting before and after "Values")
+		k, _ := strconv.Atoi(strings.TrimSuffix(strings.TrimPrefix(name, "concat-"), "z"))
 		c := w.create("concat")
+		if zed {
+			pt, pz := w.create("str"), w.create("str")
+			w.inst.UpdateParameter(pt, []byte(`"tail"`))
+			w.inst.UpdateParameter(pz, []byte(`"zed"`))
+			w.inst.ConnectNodes(pz, "Out", c, "Zed")
+			w.inst.ConnectNodes(pt, "Out", c, "Tail")
+		}
 		for i := 0; i < k; i++ {
 			p := w.create("str")
 			w.inst.UpdateParameter(p, []byte(fmt.Sprintf("%q", fmt.Sprintf("p%d", i))))
